@@ -1,6 +1,10 @@
 """Contracts for /repo/src/cminx/rstwriter.py  (C20; rendering half of C01, C07, C12, C14)."""
 from pyvc.dsl import *
 from contracts.specs import *
+try:
+    from cminx.rstwriter import ListType
+except ImportError:      # the verifier only parses this file
+    pass
 
 FIELD_TYPES = {
     "Heading.title": "str", "Heading.header_char": "str", "Heading.heading_string": "str",
@@ -60,15 +64,15 @@ def header_chars(settings: "ref:Settings") -> "list[str]":
 @spec
 def heading_ok(w: "ref:RSTWriter") -> bool:
     """document[0] is the heading built from the writer's *current* title (both receiver classes)"""
-    return (implies(typeof(w, "RSTWriter"),
-                    typeof(w.document[0], "Heading") and
-                    cast(w.document[0], "Heading").title == w.title and
-                    cast(w.document[0], "Heading").header_char == w.header_char and
-                    cast(w.document[0], "Heading").heading_string == heading_text(w.title, w.header_char)) and
-            implies(typeof(w, "Directive"),
-                    typeof(w.document[0], "DirectiveHeading") and
-                    cast(w.document[0], "DirectiveHeading").heading_string ==
-                    dheading_text(indent_of(w.indent - 1), w.title, join(",", cast(w, "Directive").arguments))))
+    return ((not typeof(w, "RSTWriter") or
+             (typeof(w.document[0], "Heading") and
+              cast(w.document[0], "Heading").title == w.title and
+              cast(w.document[0], "Heading").header_char == w.header_char and
+              cast(w.document[0], "Heading").heading_string == heading_text(w.title, w.header_char))) and
+            (not typeof(w, "Directive") or
+             (typeof(w.document[0], "DirectiveHeading") and
+              cast(w.document[0], "DirectiveHeading").heading_string ==
+              dheading_text(indent_of(w.indent - 1), w.title, join(",", cast(w, "Directive").arguments)))))
 
 
 @spec
@@ -80,13 +84,13 @@ def elements_ok(xs: "list[ref]") -> bool:
 def tree_ok(w: "ref:RSTWriter") -> bool:
     """every element of the document tree below w is something str() knows how to render"""
     return (elements_ok(w.document) and
-            implies(typeof(w, "Directive"),
-                    len(w.document) >= 1 and
-                    forall(0, len(cast(w, "Directive").options),
-                           lambda i: typeof(cast(w, "Directive").options[i], "Option"))) and
+            (not typeof(w, "Directive") or
+             (len(w.document) >= 1 and
+              forall(0, len(cast(w, "Directive").options),
+                     lambda i: typeof(cast(w, "Directive").options[i], "Option")))) and
             forall(0, len(w.document),
-                   lambda i: implies(typeof(w.document[i], "Directive") or typeof(w.document[i], "RSTWriter"),
-                                     tree_ok(cast(w.document[i], "RSTWriter")))))
+                   lambda i: not (typeof(w.document[i], "Directive") or typeof(w.document[i], "RSTWriter")) or
+                   tree_ok(cast(w.document[i], "RSTWriter"))))
 
 
 @spec
@@ -95,9 +99,9 @@ def writer_inv(w: "ref:RSTWriter") -> bool:
     return (len(w.document) >= 1 and elements_ok(w.document) and heading_ok(w) and
             (typeof(w, "RSTWriter") or typeof(w, "Directive")) and
             len(header_chars(w.settings)) >= 1 and
-            implies(typeof(w, "Directive"),
-                    forall(0, len(cast(w, "Directive").options),
-                           lambda i: typeof(cast(w, "Directive").options[i], "Option"))))
+            (not typeof(w, "Directive") or
+             forall(0, len(cast(w, "Directive").options),
+                    lambda i: typeof(cast(w, "Directive").options[i], "Option"))))
 
 
 # ---------------------------------------------------------------- str(element): one virtual contract
@@ -109,7 +113,7 @@ class virtual_str:
 
     def requires(self):
         return (is_element(self) and
-                implies(typeof(self, "Directive") or typeof(self, "RSTWriter"), tree_ok(cast(self, "RSTWriter"))))
+                (not (typeof(self, "Directive") or typeof(self, "RSTWriter")) or tree_ok(cast(self, "RSTWriter"))))
 
     def ensures(self, result):
         return result == render(self)
@@ -384,7 +388,7 @@ class RSTWriter_init:
     def requires(self, title, section_level, settings, indent):
         return (same(self.heading_level_chars, class_attr("RSTWriter.heading_level_chars")) and
                 0 <= section_level and section_level < len(header_chars(settings)) and
-                implies(typeof(self, "Directive"), len(cast(self, "Directive").arguments) >= 0))
+                (not typeof(self, "Directive") or len(cast(self, "Directive").arguments) >= 0))
 
     def ensures(self, title, section_level, settings, indent):
         return (self.title == title and self.section_level == section_level and same(self.settings, settings) and
@@ -638,3 +642,40 @@ class RSTWriter_str:
     def ensures(self, result):
         return result == render(self)
     modifies = []
+
+
+# ---------------------------------------------------------------- lemmas that tie the contracts to the sentences of C20 / C12
+@lemma
+def rep_len1(c: str, n: int):
+    """an over-/underline of a one-character header has exactly the title's length"""
+    props("C20", "C12")
+    requires(n >= 0 and len(c) == 1)
+    ensures(len(rep(c, n)) == n)
+    induction(n)
+
+
+@lemma
+def indent_len(d: int):
+    """an element added d levels deep carries exactly 3*d characters of indentation ..."""
+    props("C20", "C07")
+    requires(d >= 0)
+    ensures(len(indent_of(d)) == 3 * d)
+    induction(d)
+
+
+@lemma
+def indent_step(d: int):
+    """... and a directive nested one level deeper adds exactly three spaces"""
+    props("C20", "C07")
+    requires(d >= 0)
+    ensures(indent_of(d + 1) == indent_of(d) + "   ")
+
+
+@lemma
+def heading_frame(title: str, c: str):
+    """the title is framed by an over- and underline of the header character repeated to exactly its length"""
+    props("C20", "C12")
+    requires(len(c) == 1)
+    ensures(rep_len1(c, len(title)) and
+            heading_text(title, c) == "\n" + rep(c, len(title)) + "\n" + title + "\n" + rep(c, len(title)) and
+            len(rep(c, len(title))) == len(title))
